@@ -41,16 +41,37 @@ func miscFacts(s *src, f *facts) {
 	for _, recv := range []string{"Request", "Response"} {
 		for _, m := range []string{"Marshal", "Unmarshal"} {
 			fd := s.funcDecl(recv, m)
-			if fd == nil || fd.Body == nil || len(fd.Body.List) != 1 {
+			if fd == nil || fd.Body == nil || len(fd.Body.List) < 1 || len(fd.Body.List) > 2 {
 				plain = false
 				continue
 			}
-			r, ok := fd.Body.List[0].(*ast.ReturnStmt)
-			if !ok || len(r.Results) != 1 {
+			var callX ast.Expr
+			if len(fd.Body.List) == 1 {
+				if r, ok := fd.Body.List[0].(*ast.ReturnStmt); ok && len(r.Results) == 1 {
+					callX = r.Results[0]
+				}
+			} else {
+				// the same through named results: `<results> = f(…)` followed by a bare `return`
+				a, okA := fd.Body.List[0].(*ast.AssignStmt)
+				r, okR := fd.Body.List[1].(*ast.ReturnStmt)
+				if okA && okR && len(r.Results) == 0 && len(a.Rhs) == 1 && a.Tok == token.ASSIGN && fd.Type.Results != nil {
+					names := fieldIdents(fd.Type.Results)
+					same := len(names) == len(a.Lhs) && len(names) > 0
+					for k := range a.Lhs {
+						if !same || names[k] == nil || s.str(a.Lhs[k]) != names[k].Name {
+							same = false
+						}
+					}
+					if same {
+						callX = a.Rhs[0]
+					}
+				}
+			}
+			if callX == nil {
 				plain = false
 				continue
 			}
-			c, ok := r.Results[0].(*ast.CallExpr)
+			c, ok := callX.(*ast.CallExpr)
 			rn := ""
 			if fd.Recv != nil && len(fd.Recv.List) == 1 && len(fd.Recv.List[0].Names) == 1 {
 				rn = fd.Recv.List[0].Names[0].Name
@@ -573,7 +594,10 @@ func panicConversionHelper(s *src, fd *ast.FuncDecl) bool {
 	if t := s.str(fd.Type.Params.List[0].Type); t != "any" && t != "interface{}" {
 		return false
 	}
-	const sentinel = "utils.ErrPanickedWithNonErrorValue"
+	sentinel := "utils.ErrPanickedWithNonErrorValue"
+	if strings.Contains(s.str(fd.Body), " ErrPanickedWithNonErrorValue") || strings.Contains(s.str(fd.Body), "\tErrPanickedWithNonErrorValue") || strings.Contains(s.str(fd.Body), "= ErrPanickedWithNonErrorValue") {
+		sentinel = "ErrPanickedWithNonErrorValue" // the helper lives in package utils itself
+	}
 	p := ps[0].Name
 	// `v, k := p.(error)` -> (v, k)
 	assertion := func(st ast.Stmt) (string, string, bool) {
@@ -860,12 +884,38 @@ func crossFacts(s *src, f *facts) {
 			if s.str(l.X) != "args" {
 				continue
 			}
-			direct := false
+			// every top-level statement of the loop is part of convert–check–store: a declaration, the one assignment from
+			// convertValue (possibly as the init of the check), `if err != nil { return … }`, the store into in[i]
+			converts, okShape := 0, true
+			isConvert := func(a *ast.AssignStmt) bool {
+				if a == nil || len(a.Rhs) != 1 {
+					return false
+				}
+				c, ok := a.Rhs[0].(*ast.CallExpr)
+				return ok && s.str(c.Fun) == "convertValue"
+			}
 			for _, st := range l.Body.List {
-				if a, ok := st.(*ast.AssignStmt); ok && len(a.Rhs) == 1 {
-					if c, ok := a.Rhs[0].(*ast.CallExpr); ok && s.str(c.Fun) == "convertValue" {
-						direct = true
+				switch v := st.(type) {
+				case *ast.DeclStmt:
+				case *ast.AssignStmt:
+					if isConvert(v) {
+						converts++
+					} else if !(len(v.Lhs) == 1 && strings.HasPrefix(s.str(v.Lhs[0]), "in[")) {
+						okShape = false
 					}
+				case *ast.IfStmt:
+					if init, ok := v.Init.(*ast.AssignStmt); ok && isConvert(init) {
+						converts++
+					} else if v.Init != nil {
+						okShape = false
+					}
+					if !strings.HasSuffix(s.str(v.Cond), "!= nil") || v.Else != nil || len(v.Body.List) != 1 {
+						okShape = false
+					} else if _, isRet := v.Body.List[0].(*ast.ReturnStmt); !isRet {
+						okShape = false
+					}
+				default:
+					okShape = false
 				}
 			}
 			skips := false
@@ -874,10 +924,8 @@ func crossFacts(s *src, f *facts) {
 					skips = true
 				}
 			}
-			// …and the loop does nothing else: convert, check, store (a serializer-specific pre-check — `arg.(float64)` — would
-			// make the outcome depend on which dynamic type the decoder produced)
 			asserts := len(all[*ast.TypeAssertExpr](l.Body, nil)) + len(all[*ast.TypeSwitchStmt](l.Body, nil))
-			every = direct && !skips && len(l.Body.List) == 3 && asserts == 0
+			every = converts == 1 && okShape && !skips && asserts == 0
 		}
 	}
 	f.b("clConvertsEveryArg", every, "")
